@@ -33,6 +33,13 @@ Calibration
   labelled as the recompute mechanism.
 * Generator objects are stateful: calling one generator twice gives two different arrays by design, so
   "same seed" always means a fresh generator object.
+
+Sibling facet (vf/mon/siblings.py): every case is also built a second time with ONE result-relevant parameter changed
+(seeded arrays only: same seed and another distribution parameter / size / chunks / dtype / endpoint / p).
+The two lazily built collections must not share output keys unless their stand-alone values are equal (label
+``<op>:<param>-not-in-name:siblings-share-keys``); for a seeded ~15 % of the cases both are also computed in one graph and
+compared with their stand-alone values (``<op>:<param>:differs-when-computed-with-sibling``).  Counters siblings_built /
+siblings_computed_together / siblings_with_different_values have floors.
 """
 from __future__ import annotations
 
